@@ -1,5 +1,6 @@
 (* The calls of the public interface never fault on the concrete store and are never rejected by it when the reference
-   model accepts them - provided no added row repeats a column index (Store.MatrixSafe: the one way matrix_addrow can
+   model accepts them: with the repaired matrix_addrow (fixed = true) for every history (l2_run_fixed_safe); with
+   matrix_addrow as found provided no added row repeats a column index (Store.MatrixSafe: the one way that loop can
    leave its array).  Needs one more invariant: the logical column of row i is the singleton [(i, +-1)] (ILLlib_chgsense
    refuses to touch a logical that is not a singleton). *)
 From Coq Require Import String Ascii ZArith List Lia Bool Arith QArith Sorted.
@@ -23,6 +24,7 @@ Qed.
 
 Section Safe.
 Variables extra_cols extra_mat : nat.
+Variable fixed : bool.
 
 Lemma lib_addcol_safe s ents :
   0 < extra_cols -> LWF s -> Forall (fun e => fst e < length (rmap s)) ents -> exists s', lib_addcol extra_cols extra_mat s ents = Ok s'.
@@ -40,7 +42,7 @@ Proof.
 Qed.
 
 Lemma lib_addrow_safe s ents coef :
-  0 < extra_cols -> LWF s -> Forall (fun e => fst e < length (smap s)) ents -> NoDup (map fst ents) -> exists s', lib_addrow extra_cols extra_mat s ents coef = Ok s'.
+  0 < extra_cols -> LWF s -> Forall (fun e => fst e < length (smap s)) ents -> fixed = true \/ NoDup (map fst ents) -> exists s', lib_addrow extra_cols extra_mat fixed s ents coef = Ok s'.
 Proof.
   intros Hec L V ND. unfold lib_addrow, bind.
   assert (V' : forallb (fun e => fst e <? length (smap s)) ents = true).
@@ -48,26 +50,26 @@ Proof.
   rewrite V'. simpl negb. cbv iota.
   set (ents' := map (fun e => (nth (fst e) (smap s) 0, snd e)) ents).
   pose proof (lwf_srange _ L) as SR. rewrite Forall_forall in SR. rewrite Forall_forall in V.
-  destruct (mat_addrow_safe extra_mat (lA s) ents' (lwf_A _ L)) as (A1 & E1).
+  destruct (mat_addrow_safe extra_mat fixed (lA s) ents' (lwf_A _ L)) as (A1 & E1).
   - apply Forall_forall. intros e' He'. unfold ents' in He'. apply in_map_iff in He'. destruct He' as (e & <- & He). simpl. apply SR. apply nth_In. apply V. exact He.
-  - unfold ents'. rewrite map_map. simpl. rewrite <- (map_map fst (fun k => nth k (smap s) 0)).
+  - destruct ND as [ND|ND]; [left; exact ND|right]. unfold ents'. rewrite map_map. simpl. rewrite <- (map_map fst (fun k => nth k (smap s) 0)).
     apply NoDup_map_inj_in; [exact ND|]. intros x y Hx Hy Exy. apply in_map_iff in Hx, Hy. destruct Hx as (ex & <- & Hex). destruct Hy as (ey & <- & Hey).
     apply (NoDup_nth_inj (smap s)); [exact (lwf_snd _ L)|apply V; exact Hex|apply V; exact Hey|exact Exy].
-  - rewrite E1. destruct (mat_addrow_ok _ _ _ _ (lwf_A _ L) E1) as (W1 & _ & MR1 & _).
+  - rewrite E1. destruct (mat_addrow_ok _ _ _ _ _ (lwf_A _ L) E1) as (W1 & _ & MR1 & _).
     destruct (mat_addcol_safe extra_cols extra_mat A1 [(mrows (lA s), coef)] Hec W1) as (A2 & E2).
     + constructor; [simpl; lia|constructor].
     + rewrite E2. eexists; reflexivity.
 Qed.
 
-Lemma lib_addrow_log s ents coef s' : LWF s -> LOG s -> lib_addrow extra_cols extra_mat s ents coef = Ok s' -> LOG s'.
+Lemma lib_addrow_log s ents coef s' : LWF s -> LOG s -> lib_addrow extra_cols extra_mat fixed s ents coef = Ok s' -> LOG s'.
 Proof.
   intros L G. unfold lib_addrow, bind.
   destruct (forallb (fun e => fst e <? length (smap s)) ents) eqn:V; [|discriminate]. simpl negb. cbv iota.
   set (ents' := map (fun e => (nth (fst e) (smap s) 0, snd e)) ents).
-  destruct (mat_addrow extra_mat (lA s) ents') as [A1| |] eqn:E1; try discriminate.
+  destruct (mat_addrow extra_mat fixed (lA s) ents') as [A1| |] eqn:E1; try discriminate.
   destruct (mat_addcol extra_cols extra_mat A1 [(mrows (lA s), coef)]) as [A2| |] eqn:E2; try discriminate.
   intros H; inversion H; subst s'; clear H.
-  destruct (mat_addrow_ok extra_mat (lA s) ents' A1 (lwf_A _ L) E1) as (W1 & MC1 & MR1 & _ & CS1).
+  destruct (mat_addrow_ok extra_mat fixed (lA s) ents' A1 (lwf_A _ L) E1) as (W1 & MC1 & MR1 & _ & CS1).
   destruct (mat_addcol_ok extra_cols extra_mat A1 _ A2 W1 E2) as (W2 & MC2 & MR2 & CO2 & CN2).
   pose proof (lwf_rrange _ L) as RR. rewrite Forall_forall in RR.
   intros i Hi. simpl in *. rewrite app_length in Hi. simpl in Hi. destruct (Nat.lt_ge_cases i (length (rmap s))) as [H1|H1].
@@ -227,6 +229,7 @@ Definition rows_nodup (o : pop) : Prop :=
 Section StepSafe.
 Variable M : Q.
 Variables extra_cols extra_mat : nat.
+Variable fixed : bool.
 Hypothesis Hec : 0 < extra_cols.
 
 Lemma good_addcol s p obj lo up nm ent p' :
@@ -243,15 +246,15 @@ Proof.
 Qed.
 
 Lemma good_addrow s p rhs sn rng nm ent p' :
-  good s p -> add_row p rhs sn rng nm ent = Some p' -> NoDup (map fst (nat_ents ent)) ->
-  exists s', lib_addrow extra_cols extra_mat s (nat_ents ent) (coef_of_sense sn) = Ok s' /\ good s' p'.
+  good s p -> add_row p rhs sn rng nm ent = Some p' -> fixed = true \/ NoDup (map fst (nat_ents ent)) ->
+  exists s', lib_addrow extra_cols extra_mat fixed s (nat_ents ent) (coef_of_sense sn) = Ok s' /\ good s' p'.
 Proof.
   intros (Rf & G) H ND. pose proof Rf as (L & E & R).
   assert (V : Forall (fun e => fst e < length (smap s)) (nat_ents ent)).
   { unfold add_row in H. destruct (sense_of_ascii sn); [|discriminate]. destruct (pick_name _ _ _); [|discriminate].
     destruct (conv_ent (ncol p) ent) as [e|] eqn:C; [|discriminate].
     rewrite <- (conv_ent_nat _ _ _ C), (refines_ncol _ _ Rf). eapply conv_ent_lt; eauto. }
-  destruct (lib_addrow_safe extra_cols extra_mat s _ (coef_of_sense sn) Hec L V ND) as (s' & S). exists s'. split; [exact S|]. split.
+  destruct (lib_addrow_safe extra_cols extra_mat fixed s _ (coef_of_sense sn) Hec L V ND) as (s' & S). exists s'. split; [exact S|]. split.
   - eapply refines_addrow; eauto.
   - eapply lib_addrow_log; eauto.
 Qed.
@@ -264,12 +267,14 @@ Proof.
     destruct (good_addcol s p obj lo up nm ent p1 Gd A) as (s1 & S1 & G1). unfold bind. rewrite S1. apply (IH s1 p1 p' G1 H).
 Qed.
 
-Lemma good_addrows l : forall s p p', good s p -> add_rows p l = Some p' -> Forall (fun r : rowspec => NoDup (map fst (nat_ents (snd r)))) l ->
-  exists s', l2_addrows extra_cols extra_mat s l = Ok s' /\ good s' p'.
+Lemma good_addrows l : forall s p p', good s p -> add_rows p l = Some p' -> fixed = true \/ Forall (fun r : rowspec => NoDup (map fst (nat_ents (snd r)))) l ->
+  exists s', l2_addrows extra_cols extra_mat fixed s l = Ok s' /\ good s' p'.
 Proof.
   induction l as [|[[[[rhs sn] rng] nm] ent] r IH]; intros s p p' Gd H ND; simpl in *.
   - inversion H; subst. exists s. split; [reflexivity|exact Gd].
-  - destruct (add_row p rhs sn rng nm ent) as [p1|] eqn:A; [|discriminate]. inversion ND as [|? ? N1 N2]; subst. simpl in N1.
+  - destruct (add_row p rhs sn rng nm ent) as [p1|] eqn:A; [|discriminate].
+    assert (N1 : fixed = true \/ NoDup (map fst (nat_ents ent))) by (destruct ND as [ND|ND]; [left; exact ND|right; inversion ND; assumption]).
+    assert (N2 : fixed = true \/ Forall (fun r : rowspec => NoDup (map fst (nat_ents (snd r)))) r) by (destruct ND as [ND|ND]; [left; exact ND|right; inversion ND; assumption]).
     destruct (good_addrow s p rhs sn rng nm ent p1 Gd A N1) as (s1 & S1 & G1). unfold bind. rewrite S1. apply (IH s1 p1 p' G1 H N2).
 Qed.
 
@@ -317,17 +322,17 @@ Proof.
 Qed.
 
 Theorem l2_step_safe s p o p' t :
-  good s p -> pstep M p o = (p', ROk t) -> rows_nodup o -> exists s', l2_step extra_cols extra_mat p s o = Ok s' /\ good s' p'.
+  good s p -> pstep M p o = (p', ROk t) -> fixed = true \/ rows_nodup o -> exists s', l2_step extra_cols extra_mat fixed p s o = Ok s' /\ good s' p'.
 Proof.
   intros Gd P ND. destruct (touches_matrix o) eqn:T.
   2:{ exists s. split; [destruct o; simpl in T; try discriminate; reflexivity|]. destruct Gd as (Rf & G). split; [|exact G].
-      eapply (l2_step_refines M extra_cols extra_mat s p o p' t s Rf P). destruct o; simpl in T; try discriminate; reflexivity. }
+      eapply (l2_step_refines M extra_cols extra_mat fixed s p o p' t s Rf P). destruct o; simpl in T; try discriminate; reflexivity. }
   destruct Gd as (Rf & G). pose proof Rf as (L & E & R).
   destruct o; simpl in T; try discriminate; cbn [pstep] in P; unfold edit in P; cbn [l2_step].
   - destruct (add_col p obj lo up nm []) as [p1|] eqn:A; inversion P; subst. apply (good_addcol s p obj lo up nm [] p' (conj Rf G) A).
   - destruct (add_col p obj lo up nm ent) as [p1|] eqn:A; inversion P; subst. apply (good_addcol s p obj lo up nm ent p' (conj Rf G) A).
   - destruct (add_cols p l) as [p1|] eqn:A; inversion P; subst. apply (good_addcols l s p p' (conj Rf G) A).
-  - destruct (add_row p rhs sn None nm []) as [p1|] eqn:A; inversion P; subst. apply (good_addrow s p rhs sn None nm [] p' (conj Rf G) A). constructor.
+  - destruct (add_row p rhs sn None nm []) as [p1|] eqn:A; inversion P; subst. apply (good_addrow s p rhs sn None nm [] p' (conj Rf G) A). right. constructor.
   - destruct (add_row p rhs sn rng nm ent) as [p1|] eqn:A; inversion P; subst. apply (good_addrow s p rhs sn rng nm ent p' (conj Rf G) A ND).
   - destruct (add_rows p l) as [p1|] eqn:A; inversion P; subst. apply (good_addrows l s p p' (conj Rf G) A ND).
   - apply (good_delrows s p (DelRows l) p' t (conj Rf G) eq_refl). cbn [pstep]. unfold edit. exact P.
@@ -342,20 +347,22 @@ Proof.
     + rewrite R, <- (idx_to_nat _ _ _ Ei). eapply idx_lt; eauto.
     + rewrite (refines_ncol _ _ Rf), <- (idx_to_nat _ _ _ Ej). eapply idx_lt; eauto.
     + exists s'. split; [exact S|]. split; [|eapply lib_chgcoef_log; eauto].
-      apply (l2_step_refines M extra_cols extra_mat s p (ChgCoef i j v) p' [] s' Rf); [cbn [pstep]; unfold edit; rewrite A'; reflexivity|exact S].
+      apply (l2_step_refines M extra_cols extra_mat fixed s p (ChgCoef i j v) p' [] s' Rf); [cbn [pstep]; unfold edit; rewrite A'; reflexivity|exact S].
   - destruct (chg_senses p l) as [p1|] eqn:A; inversion P; subst. pose proof A as A'. unfold chg_senses in A. destruct (conv_senses (nrow p) l) as [cs|] eqn:C; [|discriminate].
     destruct (good_chgsenses l s p (conj Rf G)) as (s' & S & (Rf' & G')); [rewrite R; eapply conv_senses_lt; eauto|].
     exists s'. split; [exact S|]. split; [|exact G'].
-    apply (l2_step_refines M extra_cols extra_mat s p (ChgSenses l) p' [] s' Rf); [cbn [pstep]; unfold edit; rewrite A'; reflexivity|exact S].
+    apply (l2_step_refines M extra_cols extra_mat fixed s p (ChgSenses l) p' [] s' Rf); [cbn [pstep]; unfold edit; rewrite A'; reflexivity|exact S].
 Qed.
 End StepSafe.
 
-Theorem l2_run_safe M extra_cols extra_mat l : 0 < extra_cols -> forall s p, good s p -> Forall rows_nodup l ->
-  exists s', l2_run M extra_cols extra_mat p s l = Ok s' /\ good s' (prun M p l).
+Theorem l2_run_safe M extra_cols extra_mat fixed l : 0 < extra_cols -> forall s p, good s p -> fixed = true \/ Forall rows_nodup l ->
+  exists s', l2_run M extra_cols extra_mat fixed p s l = Ok s' /\ good s' (prun M p l).
 Proof.
   intros Hec. induction l as [|o r IH]; intros s p Gd ND; simpl; [exists s; split; [reflexivity|exact Gd]|].
-  inversion ND as [|? ? N1 N2]; subst. destruct (pstep M p o) as [p1 res] eqn:P. simpl. destruct res as [t| |].
-  - destruct (l2_step_safe M extra_cols extra_mat Hec s p o p1 t Gd P N1) as (s1 & S1 & G1). unfold bind. rewrite S1. apply (IH s1 p1 G1 N2).
+  assert (N1 : fixed = true \/ rows_nodup o) by (destruct ND as [ND|ND]; [left; exact ND|right; inversion ND; assumption]).
+  assert (N2 : fixed = true \/ Forall rows_nodup r) by (destruct ND as [ND|ND]; [left; exact ND|right; inversion ND; assumption]).
+  destruct (pstep M p o) as [p1 res] eqn:P. simpl. destruct res as [t| |].
+  - destruct (l2_step_safe M extra_cols extra_mat fixed Hec s p o p1 t Gd P N1) as (s1 & S1 & G1). unfold bind. rewrite S1. apply (IH s1 p1 G1 N2).
   - assert (p1 = p) by (eapply err_leaves_state_eq; exact P). subst p1. apply (IH s p Gd N2).
   - exfalso. eapply pstep_not_skip; eauto.
 Qed.
@@ -364,12 +371,22 @@ Lemma good_empty M mx : good empty_lstore (empty_prob M mx).
 Proof. split; [apply refines_empty|apply LOG_empty]. Qed.
 
 (* QSload_prob: rows first (no entries), then the columns *)
-Theorem l2_load_good M extra_cols extra_mat mx cols rows p : 0 < extra_cols ->
-  load_prob M mx cols rows = Some p -> exists s, l2_load extra_cols extra_mat cols rows = Ok s /\ good s p.
+Theorem l2_load_good M extra_cols extra_mat fixed mx cols rows p : 0 < extra_cols ->
+  load_prob M mx cols rows = Some p -> exists s, l2_load extra_cols extra_mat fixed cols rows = Ok s /\ good s p.
 Proof.
   intros Hec H. unfold load_prob in H. unfold l2_load.
   match type of H with match ?x with _ => _ end = _ => destruct x as [p1|] eqn:A end; [|discriminate H].
-  destruct (good_addrows extra_cols extra_mat Hec _ empty_lstore (empty_prob M mx) p1 (good_empty M mx) A) as (s1 & S1 & G1).
-  - apply Forall_forall. intros r Hr. apply in_map_iff in Hr. destruct Hr as (x & Ex & _). subst r. simpl. constructor.
+  destruct (good_addrows extra_cols extra_mat fixed Hec _ empty_lstore (empty_prob M mx) p1 (good_empty M mx) A) as (s1 & S1 & G1).
+  - right. apply Forall_forall. intros r Hr. apply in_map_iff in Hr. destruct Hr as (x & Ex & _). subst r. simpl. constructor.
   - unfold bind. rewrite S1. apply (good_addcols extra_cols extra_mat Hec cols s1 p1 p G1 H).
 Qed.
+
+(* With the repaired matrix_addrow (fixed = true) there is no side condition left: every history of calls runs on the
+   concrete store without Fault and without Rej, and the store keeps refining the reference model. *)
+Corollary l2_step_fixed_safe M extra_cols extra_mat s p o p' t : 0 < extra_cols ->
+  good s p -> pstep M p o = (p', ROk t) -> exists s', l2_step extra_cols extra_mat true p s o = Ok s' /\ good s' p'.
+Proof. intros Hec Gd P. apply (l2_step_safe M extra_cols extra_mat true Hec s p o p' t Gd P). left. reflexivity. Qed.
+
+Corollary l2_run_fixed_safe M extra_cols extra_mat l : 0 < extra_cols -> forall s p, good s p ->
+  exists s', l2_run M extra_cols extra_mat true p s l = Ok s' /\ good s' (prun M p l).
+Proof. intros Hec s p Gd. apply (l2_run_safe M extra_cols extra_mat true l Hec s p Gd). left. reflexivity. Qed.
